@@ -422,6 +422,38 @@ impl C05 {
                     obs.see("lang_words", if generic { "float" } else { &word });
                 }
             }
+            // language level: the number just read, packed again, gives the same bits - NaN sign and payload included.
+            // (A 32-bit signalling NaN has no counterpart among the interpreter's 64-bit reals - widening quiets it - so
+            // there is no value whose packing could return it; every other 32-bit pattern widens and narrows exactly.)
+            let signalling32 = !is64 && (p & 0x7f80_0000) == 0x7f80_0000 && (p & 0x007f_ffff) != 0 && (p & 0x0040_0000) == 0;
+            if signalling32 {
+                continue;
+            }
+            let packw = if rng.flip() { format!("{} float!", w) } else { format!("{}!", word) };
+            let src2 = format!("{} {} {}", src, if big { "big" } else { "little" }, packw);
+            let want_bits: u64 = p;
+            let wbytes: Vec<u8> = if is64 {
+                if big { want_bits.to_be_bytes().to_vec() } else { want_bits.to_le_bytes().to_vec() }
+            } else if big {
+                (want_bits as u32).to_be_bytes().to_vec()
+            } else {
+                (want_bits as u32).to_le_bytes().to_vec()
+            };
+            let want2: Vec<u8> = wbytes.iter().flat_map(|b| (0..8).rev().map(move |i| (b >> i) & 1)).collect();
+            match self.lang_eval(&src2) {
+                Err(e) => {
+                    self.fail(obs, idx, &cell, "lang-float-repack", "error", format!("{} -> {}", src2, e));
+                    return;
+                }
+                Ok(xs) => {
+                    let got: Option<Vec<u8>> = xs.get_data(0).and_then(|x| x.bitstr().ok()).map(|b| b.bits().collect());
+                    if got.as_ref() != Some(&want2) {
+                        self.fail(obs, idx, &cell, "lang-float-repack", class, format!("{} -> {:?}, expected the bits {:#x}", src2, got, want_bits));
+                        return;
+                    }
+                    obs.count("lang_float_repacks");
+                }
+            }
         }
         // language level pack of exactly representable decimals
         for _ in 0..4 {
